@@ -642,3 +642,4 @@ theorem locatePattern_spec (pat s : Bytes) (hp : pat ≠ []) :
     rw [List.append_assoc, List.take_append_drop, List.take_append_drop]
 
 end ObiVerif.Apat
+
